@@ -766,8 +766,9 @@ def part_cold(case):
     inputs = [_step_io(st) for st in steps]
     expect = case["expect"]
     n = len(inputs)
-    for kind in sorted({inp[0] for inp in inputs if inp[0] != "route"}):
-        obs.extractor(kind)         # importing the extractor modules one after the other is not part of the race (concurrent first import is C07's)
+    if not case.get("cold_import"):
+        for kind in sorted({inp[0] for inp in inputs if inp[0] != "route"}):
+            obs.extractor(kind)     # importing the extractor modules one after the other; cases with "cold_import" leave even that to the threads
     bar = threading.Barrier(n)
     got = [None] * n
     errs = []
@@ -1163,6 +1164,20 @@ def main(run):
             cold_cases.append({"part": "cold", "steps": [list(x) for x in pick], "group": k})
     for i in range(run.n(6, 40)):
         cold_cases.append({"part": "cold", "steps": [list(rng.choice([st for st in iso_steps if not risky(st)])) for _ in range(8)], "group": "mixed"})
+    # ... and with nothing imported at all: 8 documents of 2-4 formats whose extractors live in one sub-package (and of any formats) are the first
+    # thing the process sees; the lazy imports themselves overlap
+    fam_kinds = [("doc", "xls", "ppt", "rtf"), ("docx", "xlsx", "pptx"), ("odt", "ods", "odp", "odg", "odf"), ("eml", "mbox", "msg"), ("html", "epub", "mhtml", "txt", "pdf", "zip")]
+    for fk in fam_kinds:
+        pool_ = [st for k in fk for st in by_kind_members.get(k, {}).values()]
+        if len({st[0] for st in pool_}) < 2:
+            continue
+        for rep in range(run.n(4, 10)):
+            pick = []
+            kinds_ = sorted({st[0] for st in pool_})
+            for j in range(8):
+                kk = kinds_[j % len(kinds_)]
+                pick.append(rng.choice([st for st in pool_ if st[0] == kk]))
+            cold_cases.append({"part": "cold", "cold_import": True, "steps": [list(x) for x in pick], "group": "first-import:" + "+".join(kinds_)})
     # interleaved lazy generators in one thread: archives (several results per generator) against archives and against documents
     multi = ([["zip", {"src": ["iso", "zip", v], "op": None}, 1] for v in ("A", "B")] + [["zip", {"src": ["iso", "zip-mime", "zipB"], "op": None}, 1], ["zip", {"src": ["iso", "tar-mime", "tarB"], "op": None}, 1]]
              + [["zip", {"src": s_, "op": None}, 1] for s_ in sources.get("zip", []) if s_[0] == "arch"] + [["mbox", {"src": ["iso", "mbox-sized", "box"], "op": None}, 1]])
@@ -1227,7 +1242,8 @@ def main(run):
             run.count("first_use_cases_in_fresh_processes")
             run.count("first_use_results_compared_with_isolated_baseline", ob["compared"])
             for p in ob["problems"]:
-                run.violation(f"C15:first-use-{ob['threads']}-threads:{p['feature'] or 'mixed-workload'}:{p['sym']}", p["detail"] + f" (group {case.get('group')})", rep)
+                feat_ = case["group"].replace(":", "-") if case.get("cold_import") else (p["feature"] or "mixed-workload")
+                run.violation(f"C15:first-use-{ob['threads']}-threads:{feat_}:{p['sym']}", p["detail"] + f" (group {case.get('group')})", rep)
             run.case(f"cold:{case.get('group')}:{len(ob['problems'])}")
         else:
             run.count("generator_interleavings", ob["interleavings"])
